@@ -231,6 +231,7 @@ def math1 (name : String) : Val → Option Val
     | "firstLeadingBit" => some (.i32 (flbS a))
     | "firstTrailingBit" => some (.i32 (ftbW a))
     | "reverseBits" => some (.i32 (reverseBitsW a))
+    | "sign" => some (.i32 (if a.toInt > 0 then 1#32 else if a.toInt < 0 then 0xFFFFFFFF#32 else 0#32))
     | _ => none
   | .u32 a => match name with
     | "abs" => some (.u32 a)
